@@ -419,6 +419,12 @@ def replay_c08_pow(args):
                         base = _model_mul(base, base, mc, p)
                         e >>= 1
                     exp = acc
+                    if n in (0, 1, 2):
+                        one_, zero_ = [1] + [0] * (deg - 1), [0] * deg
+                        for bs in (zero_, one_, [p - 1] + [0] * (deg - 1), [0, 1] + [0] * (deg - 2)):
+                            want = one_ if n == 0 else (bs if n == 1 else _model_mul(bs, bs, mc, p))
+                            if _ints(K(list(bs)) ** n) != want:
+                                bad.append((curve, "extension base", bs[:2], "exponent", n))
             except RecursionError:
                 bad.append(("RecursionError", curve, n.bit_length()))
                 continue
@@ -666,6 +672,14 @@ def replay_c14_diff(args):
                             bad.append((repr(e), i, a, b, k))
                 if (RK(a) == RK(b)) != (OK(a) == OK(b)) or (RK(a) < RK(b)) != (OK(a) < OK(b)):
                     bad.append(("cmp", a, b))
+            for k in (a, a + p, a - p, p, 0, -1, 2 * p + a):
+                for nm, cmpf in (("==", lambda x, k: x == k), ("<", lambda x, k: x < k), (">=", lambda x, k: x >= k), ("!=", lambda x, k: x != k)):
+                    try:
+                        u, v = cmpf(RK(a), k), cmpf(OK(a), k)
+                    except Exception as e:
+                        u, v = "raised", repr(e)
+                    if u != v:
+                        bad.append(("cmp with int", nm, a % 1000, "k - a = %d p" % ((k - a) // p)))
     else:
         deg = int(kind[2:])
         elems = [[0] * deg, [1] + [0] * (deg - 1), [p - 1] * deg] + [[rng.randrange(p) for _ in range(deg)] for _ in range(4)]
@@ -1789,7 +1803,8 @@ def replay_c06_nonce(args):
     import hmac, hashlib
     from py_ecc.secp256k1 import secp256k1 as sp
     bad = []
-    for priv, h in ((b"\x01" * 32, b"\x00" * 32), (bytes(range(32)), b""), (b"\xff" * 32, b"\xab" * 64), (b"\x10" * 32, b"\x01" * 31)):
+    for priv, h in ((b"\x01" * 32, b"\x00" * 32), (bytes(range(32)), b""), (b"\xff" * 32, b"\xab" * 64), (b"\x10" * 32, b"\x01" * 31),
+                    (b"\x02" * 32, b"\xff" * 32), (b"\x03" * 32, _SN.to_bytes(32, "big")), (b"\x04" * 32, (_SN + 1).to_bytes(32, "big"))):
         V, K = b"\x01" * 32, b"\x00" * 32
         K = hmac.new(K, V + b"\x00" + priv + h, hashlib.sha256).digest()
         V = hmac.new(K, V, hashlib.sha256).digest()
@@ -2322,6 +2337,13 @@ def replay_c10_pipeline(args):
     from py_ecc.bls.g2_primitives import subgroup_check
     bad = []
     dst = b"QUUX-V01-CS02-with-BLS12381G2_XMD:SHA-256_SSWU_RO_"
+    for hf in (hashlib.sha512, hashlib.sha384):
+        u0, u1 = hash_to_field_FQ(b"abc", 2, dst, hf)
+        if normalize(clear_cofactor_G1(add(map_to_curve_G1(u0), map_to_curve_G1(u1)))) != normalize(hash_to_G1(b"abc", dst, hf)):
+            bad.append(("G1 with " + hf().name,))
+        v0, v1 = hash_to_field_FQ2(b"abc", 2, dst, hf)
+        if normalize(clear_cofactor_G2(add(map_to_curve_G2(v0), map_to_curve_G2(v1)))) != normalize(hash_to_G2(b"abc", dst, hf)):
+            bad.append(("G2 with " + hf().name,))
     for msg in (b"", b"abc"):
         u0, u1 = hash_to_field_FQ2(msg, 2, dst, hashlib.sha256)
         exp = clear_cofactor_G2(add(map_to_curve_G2(u0), map_to_curve_G2(u1)))
@@ -2522,7 +2544,8 @@ def replay_c12_finalexp(args):
     if pm.exp_by_p(FQ12.zero()) != FQ12.zero():
         bad.append(("exp_by_p(0)",))
     # sparse / unit-coefficient shapes
-    for cs in ([2, 1] + [0] * 10, [5] * 11 + [1], [1] * 12, [0, 0, 1, 0, 0, 0, 0, 7, 0, 0, 0, 1], [p - 1, 1, p - 1, 1] + [0] * 8):
+    for cs in ([3, 0, 0, 0, 0, 0, 5, 0, 0, 0, 0, 0], [0, 0, 0, 0, 0, 0, 1, 0, 0, 0, 0, 0], [7, 0, 0, 0, 0, 0, p - 2, 0, 0, 0, 0, 0], [0, 0, 0, 4, 0, 0, 0, 0, 0, 9, 0, 0],
+               [2, 1] + [0] * 10, [5] * 11 + [1], [1] * 12, [0, 0, 1, 0, 0, 0, 0, 7, 0, 0, 0, 1], [p - 1, 1, p - 1, 1] + [0] * 8):
         x = FQ12(cs)
         if pm.exp_by_p(x) != x ** p:
             bad.append(("exp_by_p on unit / sparse coefficients", cs[:4]))
